@@ -7,23 +7,8 @@ import (
 
 // Process runs this layering algorithm on the input graph. The graph must be acyclic.
 func (alg Alg) Process(g *graph.DGraph, params graph.Params) {
-	imonitor.PrefixFor(alg)
+	alg.AssignLayers(g, params)
 
-	if len(g.Nodes) == 1 {
-		// a single node defaults to layer zero
-		goto initLayers
-	}
-
-	switch alg {
-	case LongestPath:
-		execLongestPath(g)
-	case NetworkSimplex:
-		execNetworkSimplex(g, params)
-	default:
-		panic("layering: unknown alg value")
-	}
-
-initLayers:
 	size := 0
 	for _, n := range g.Nodes {
 		size = max(size, n.Layer)
@@ -48,5 +33,26 @@ initLayers:
 		if l == nil {
 			g.Layers[i] = &graph.Layer{Index: i}
 		}
+	}
+}
+
+// AssignLayers runs this layering algorithm and sets Node.Layer only, without building g.Layers.
+// The slice g.Layers has one entry per layer index: callers that use layers as coordinates (the network simplex
+// positioner, whose auxiliary graph has layers as large as the drawing is wide) must not build it.
+func (alg Alg) AssignLayers(g *graph.DGraph, params graph.Params) {
+	imonitor.PrefixFor(alg)
+
+	if len(g.Nodes) == 1 {
+		// a single node defaults to layer zero
+		return
+	}
+
+	switch alg {
+	case LongestPath:
+		execLongestPath(g)
+	case NetworkSimplex:
+		execNetworkSimplex(g, params)
+	default:
+		panic("layering: unknown alg value")
 	}
 }
